@@ -51,7 +51,7 @@ def footprint(rng, covord, spord):
 
 
 def histories(rng, tier):
-    n = 40 if tier == 'quick' else 500
+    n = 120 if tier == 'quick' else 500
     out = []
     for _ in range(n):
         covord = rng.choice([0, 1, 2, 3])
